@@ -44,7 +44,8 @@ def run(tier):
     # nested sources: buffers pushed from inside actions (include files), so that yywrap / <<EOF>> can also answer by popping back
     for api in ("NR", "R", "C99"):
         for a in (asg[0], asg[len(asg) // 2]):
-            kn = {"VF_BUDGET_DEFAULT": dev, "VF_BUDGET_TOTAL": dev, "VF_CALLMASK": MASK, "VF_MAX_OPS": 2, "VF_ACTION_PUSH": 1, "VF_READ_ONE": 1}
+            nd = max(dev, 5)          # re-pointing yyin, a push from an action and the pop at its end already take five deviations together
+            kn = {"VF_BUDGET_DEFAULT": nd, "VF_BUDGET_TOTAL": nd, "VF_CALLMASK": MASK, "VF_MAX_OPS": 2, "VF_ACTION_PUSH": 1, "VF_READ_ONE": 1}
             jobs.append(BH.make_job(api, a, kn, "eof-nested-%s-%d" % (api, asg.index(a)), sources=srcs))
     # full and fast tables take other end-of-buffer paths
     for fa in (["-Cf"], ["-CFe"], ["-B"]):
